@@ -71,7 +71,11 @@ func marshalSideFuncs(p *core.Program) []*fn {
 
 func checkC18(r *core.Run, p *core.Program) {
 	r.Rule("C18.no-mutation", "in every function that runs while a value is marshaled or events are encoded (iterators, validator, CBE/CTE encoders and writers, conversions), a parameter of type *big.Int, *big.Float, *apd.Decimal, []byte or reflect.Value — or an alias/view derived from it — is never the receiver of a receiver-overwriting big-number method (Neg, Abs, Add, Set…), never the destination of an element store, copy or in-place append, and never the target of a reflect Set*: the caller's value is only read.")
+	r.Rule("C18.user-pointers", "in package iterator a pointer taken out of the value being marshaled (v.Interface().(*T)) is only read: no field store or assignment through it, no Init*/Set*/Reset*/Normalize* method on it or on the address of one of its fields, and no module function that does one of these through the corresponding parameter is handed it.")
+	r.Rule("C18.fresh-document", "a document returned by an exported Marshal…Document / Encode…Document style function is the contents of a buffer that is local to that call, never of a buffer kept in the marshaler or in a package variable (the next call would overwrite the bytes the previous caller still holds).")
 	r.NotDecide("mutation inside third-party encoders that are handed the pointer (compact-float, compact-time); values reachable only through unsafe aliasing")
+	checkC18UserPointers(r, p)
+	checkC18FreshDocument(r, p)
 	r.Assume("third-party encoders called with a pointer to the caller's big number do not modify it")
 	funcs := marshalSideFuncs(p)
 	// package-level functions that nothing in the module references are dead code, not part of marshaling
@@ -255,4 +259,279 @@ func identOf(e ast.Expr) *ast.Ident {
 		return id
 	}
 	return &ast.Ident{Name: "_"}
+}
+
+// ptrWriteThrough reports the first place where function d writes through its parameter pv (a pointer): a store
+// to *pv / pv.f / (&pv.f).g, a mutating-named pointer method on it or on the address of a field of it, or a call
+// of a module function that does so (depth-bounded). Aliases `x := pv`, `x := &pv.f` are followed.
+func ptrWriteThrough(p *core.Program, info *types.Info, body ast.Node, roots map[types.Object]bool, depth int) (token.Pos, string) {
+	// alias closure
+	for iter := 0; iter < 4; iter++ {
+		grew := false
+		ast.Inspect(body, func(n ast.Node) bool {
+			as, ok := n.(*ast.AssignStmt)
+			if !ok || len(as.Lhs) != len(as.Rhs) {
+				return true
+			}
+			for i, l := range as.Lhs {
+				id, ok := l.(*ast.Ident)
+				if !ok {
+					continue
+				}
+				if o := info.ObjectOf(id); o != nil && !roots[o] && ptrRootIn(info, as.Rhs[i], roots, true) {
+					if _, isPtr := o.Type().Underlying().(*types.Pointer); isPtr {
+						roots[o] = true
+						grew = true
+					}
+				}
+			}
+			return true
+		})
+		if !grew {
+			break
+		}
+	}
+	var pos token.Pos
+	what := ""
+	hit := func(at token.Pos, w string) {
+		if !pos.IsValid() {
+			pos, what = at, w
+		}
+	}
+	ast.Inspect(body, func(n ast.Node) bool {
+		switch s := n.(type) {
+		case *ast.AssignStmt:
+			for _, l := range s.Lhs {
+				if _, isId := stripParens(l).(*ast.Ident); isId {
+					continue // rebinding the variable itself
+				}
+				if ptrRootIn(info, l, roots, false) {
+					hit(l.Pos(), "`"+exprStr(l)+" = …`")
+				}
+			}
+		case *ast.IncDecStmt:
+			if _, isId := stripParens(s.X).(*ast.Ident); !isId && ptrRootIn(info, s.X, roots, false) {
+				hit(s.Pos(), "`"+exprStr(s.X)+"` modified")
+			}
+		case *ast.CallExpr:
+			cal := callee(info, s)
+			if cal == nil {
+				return true
+			}
+			if sel, ok := s.Fun.(*ast.SelectorExpr); ok {
+				if sig, ok := cal.Type().(*types.Signature); ok && sig.Recv() != nil {
+					if _, ptrRecv := sig.Recv().Type().(*types.Pointer); ptrRecv && ptrRootIn(info, sel.X, roots, true) {
+						for _, pre := range []string{"Init", "Set", "Reset", "Normalize", "Clear", "Unmarshal", "Scan"} {
+							if strings.HasPrefix(cal.Name(), pre) {
+								hit(s.Pos(), "`"+exprStr(s.Fun)+"(…)` (a method that overwrites its receiver)")
+							}
+						}
+					}
+				}
+			}
+			if depth < 3 && core.InModule(cal) {
+				if d := p.FuncDecl(cal); d != nil && d.Body != nil {
+					sig := cal.Type().(*types.Signature)
+					sub := map[types.Object]bool{}
+					for i, a := range s.Args {
+						if i < sig.Params().Len() && ptrRootIn(info, a, roots, true) {
+							if _, isPtr := sig.Params().At(i).Type().Underlying().(*types.Pointer); isPtr {
+								sub[sig.Params().At(i)] = true
+							}
+						}
+					}
+					if len(sub) > 0 {
+						if pkg := p.PkgOf(cal); pkg != nil {
+							if at, w := ptrWriteThrough(p, pkg.TypesInfo, d.Body, sub, depth+1); at.IsValid() {
+								hit(s.Pos(), "`"+cal.Name()+"(…)`, which does "+w)
+							}
+						}
+					}
+				}
+			}
+		}
+		return true
+	})
+	return pos, what
+}
+
+// ptrRootIn: e denotes (asPointer) the pointer itself or the address of something inside its pointee, or
+// (!asPointer) a location inside its pointee: root, root.f, *root, root.f.g, &root.f, root.f[i] …
+func ptrRootIn(info *types.Info, e ast.Expr, roots map[types.Object]bool, asPointer bool) bool {
+	through := false
+	for {
+		switch x := stripParens(e).(type) {
+		case *ast.Ident:
+			if !roots[info.ObjectOf(x)] {
+				return false
+			}
+			return asPointer || through
+		case *ast.SelectorExpr:
+			if _, isPkg := info.Uses[identOf(x.X)].(*types.PkgName); isPkg {
+				return false
+			}
+			through = true
+			e = x.X
+		case *ast.StarExpr:
+			through = true
+			e = x.X
+		case *ast.UnaryExpr:
+			if x.Op != token.AND {
+				return false
+			}
+			e = x.X
+		case *ast.IndexExpr:
+			through = true
+			e = x.X
+		default:
+			return false
+		}
+	}
+}
+
+func checkC18UserPointers(r *core.Run, p *core.Program) {
+	pkg := p.Pkg("iterator")
+	info := pkg.TypesInfo
+	n := 0
+	for _, f := range funcsOf(pkg) {
+		// user pointers: variables defined from v.Interface().(*T), and such expressions used directly as arguments
+		roots := map[types.Object]bool{}
+		isUserPtr := func(e ast.Expr) bool {
+			ta, ok := stripParens(e).(*ast.TypeAssertExpr)
+			if !ok || ta.Type == nil {
+				return false
+			}
+			if _, isPtr := info.TypeOf(ta.Type).Underlying().(*types.Pointer); !isPtr {
+				return false
+			}
+			call, ok := stripParens(ta.X).(*ast.CallExpr)
+			if !ok {
+				return false
+			}
+			cal := callee(info, call)
+			return cal != nil && cal.Name() == "Interface" && typeIs(recvType(cal), "reflect", "Value")
+		}
+		var direct []*ast.CallExpr
+		ast.Inspect(f.Decl.Body, func(nd ast.Node) bool {
+			switch s := nd.(type) {
+			case *ast.AssignStmt:
+				if len(s.Lhs) == len(s.Rhs) {
+					for i, l := range s.Lhs {
+						if id, ok := l.(*ast.Ident); ok && isUserPtr(s.Rhs[i]) {
+							if o := info.ObjectOf(id); o != nil {
+								roots[o] = true
+								n++
+							}
+						}
+					}
+				}
+			case *ast.CallExpr:
+				for _, a := range s.Args {
+					if isUserPtr(a) {
+						direct = append(direct, s)
+						n++
+					}
+				}
+				if sel, ok := s.Fun.(*ast.SelectorExpr); ok && isUserPtr(sel.X) {
+					if cal := callee(info, s); cal != nil {
+						for _, pre := range []string{"Init", "Set", "Reset", "Normalize", "Clear", "Unmarshal", "Scan"} {
+							if strings.HasPrefix(cal.Name(), pre) {
+								r.Fail("C18.user-pointers", f.Name()+"|"+cal.Name(), s.Pos(), "a receiver-overwriting method is called on the pointer taken out of the value being marshaled")
+							}
+						}
+					}
+					n++
+				}
+			}
+			return true
+		})
+		if len(roots) > 0 {
+			if at, w := ptrWriteThrough(p, info, f.Decl.Body, roots, 0); at.IsValid() {
+				r.Fail("C18.user-pointers", f.Name()+"|writes through the user's pointer", at, "the pointer taken out of the value being marshaled is written through: "+w+" - marshaling modifies the caller's object")
+			}
+		}
+		for _, call := range direct {
+			cal := callee(info, call)
+			if cal == nil || !core.InModule(cal) {
+				continue
+			}
+			d := p.FuncDecl(cal)
+			cp := p.PkgOf(cal)
+			if d == nil || d.Body == nil || cp == nil {
+				continue
+			}
+			sig := cal.Type().(*types.Signature)
+			sub := map[types.Object]bool{}
+			for i, a := range call.Args {
+				if i < sig.Params().Len() && isUserPtr(a) {
+					sub[sig.Params().At(i)] = true
+				}
+			}
+			if at, w := ptrWriteThrough(p, cp.TypesInfo, d.Body, sub, 1); at.IsValid() {
+				r.Fail("C18.user-pointers", f.Name()+"|"+cal.Name()+" writes through the user's pointer", call.Pos(), "the pointer taken out of the value being marshaled is handed to "+cal.Name()+", which does "+w+" - marshaling modifies the caller's object")
+			}
+		}
+	}
+	r.Pass("C18.user-pointers", "iterator|pointers taken out of the value are only read", token.NoPos, "")
+	r.Floor("C18.user-pointers", "pointers taken out of the marshaled value", n, 5)
+}
+
+func checkC18FreshDocument(r *core.Run, p *core.Program) {
+	n := 0
+	for _, rel := range []string{"cbe", "cte", "ce"} {
+		pkg := p.Pkg(rel)
+		info := pkg.TypesInfo
+		for _, f := range funcsOf(pkg) {
+			if !f.Obj.Exported() {
+				continue
+			}
+			sig := f.Obj.Type().(*types.Signature)
+			returnsBytes := false
+			for i := 0; i < sig.Results().Len(); i++ {
+				if isByteSlice(sig.Results().At(i).Type()) {
+					returnsBytes = true
+				}
+			}
+			if !returnsBytes {
+				continue
+			}
+			// every x.Bytes() of a bytes.Buffer in the function: x must be a variable declared in this function
+			inspectCalls(info, f.Decl.Body, func(call *ast.CallExpr, cal *types.Func) {
+				if cal == nil || cal.Name() != "Bytes" || !typeIs(recvType(cal), "bytes", "Buffer") {
+					return
+				}
+				sel := call.Fun.(*ast.SelectorExpr)
+				n++
+				recv := stripAddr(sel.X)
+				id, isId := stripParens(recv).(*ast.Ident)
+				local := false
+				if isId {
+					if v, ok := info.ObjectOf(id).(*types.Var); ok && v.Parent() != nil && v.Parent() != v.Pkg().Scope() && !v.IsField() {
+						// declared inside the function body (not a parameter / receiver)
+						if f.Decl.Body.Pos() <= v.Pos() && v.Pos() <= f.Decl.Body.End() {
+							if _, isPtr := v.Type().Underlying().(*types.Pointer); !isPtr {
+								local = true
+							} else if init := singleInit(info, f, v); init != nil {
+								// buff := &bytes.Buffer{} / new(bytes.Buffer) / bytes.NewBuffer(…)
+								switch x := stripParens(init).(type) {
+								case *ast.UnaryExpr:
+									_, isLit := stripParens(x.X).(*ast.CompositeLit)
+									local = x.Op == token.AND && isLit
+								case *ast.CallExpr:
+									if c := callee(info, x); c != nil && c.Pkg() != nil && c.Pkg().Path() == "bytes" {
+										local = true
+									} else if bi, ok := x.Fun.(*ast.Ident); ok && bi.Name == "new" {
+										local = true
+									}
+								}
+							}
+						}
+					}
+				}
+				r.Check("C18.fresh-document", f.Name()+"|"+exprStr(sel.X)+".Bytes()", call.Pos(), local,
+					"the returned document is the contents of `"+exprStr(sel.X)+"`, a buffer that outlives the call: the next call reuses it and overwrites the bytes the previous caller still holds")
+			})
+		}
+	}
+	r.Floor("C18.fresh-document", "documents returned from buffers", n, 2)
 }
